@@ -6,7 +6,11 @@ from vf.hlib import NS, pick, concrete_int
 from vf import minipl
 import rtflite.services.grouping_service as gs
 from rtflite.services.grouping_service import GroupingService
-SVC = GroupingService()
+class _FreshService:
+    """a new GroupingService per use: nothing an instance remembers leaks from one explored path into the next"""
+    def __getattr__(self, name):
+        return getattr(GroupingService(), name)
+SVC = _FreshService()
 
 def key(z, k):
     return None if z else k
@@ -182,6 +186,40 @@ from rtflite.encoding.unified_encoder import UnifiedRTFEncoder
             bounds="%d group level(s), %d rows, keys over an alphabet of %d letters or null (solver-enumerated)" % (levels, n, size),
             what="enhance_group_by (the entry point the encoder calls) raises ValueError iff, at some level, equal hierarchical keys are "
                  "separated by a different key; contiguous data is rendered"))
+    # O5: validation is not remembered across calls: the same rows in a non-contiguous order are still rejected
+    for levels, n, size in (((1, 3, 2), (2, 3, 1)) if quick else ((1, 3, 3), (1, 4, 3), (2, 3, 2), (2, 4, 1))):
+        names = ["G", "H", "K"][:levels]
+        obs.append(Ob(
+            oid="O5.validation_history.l%d.n%d" % (levels, n), sig=asig(n, levels) + ", shared: bool", pre=apre(n, levels, size), header=HDR13, timeout=T,
+            body=r"""
+    cols = %s
+    names = %r
+    n = %d
+    rows = [tuple(cols[m][j] for m in names) + (cols["v"][j],) for j in range(n)]
+    order = sorted(range(n), key=lambda j: tuple((0, "") if x is None else (1, x) for x in rows[j][:-1]))
+    sorted_cols = {m: [cols[m][j] for j in order] for m in list(names) + ["v"]}
+    svc = gs.grouping_service if shared else GroupingService()       # the encoder's singleton, or one private instance
+    with minipl.substituted(gs):
+        svc.enhance_group_by(minipl.Frame(sorted_cols), names)           # same rows, contiguous: accepted
+        try:
+            svc.enhance_group_by(minipl.Frame(cols), names)
+            got = "ok"
+        except ValueError:
+            got = "ValueError"
+    bad = False
+    for l in range(len(names)):
+        keys = [tuple(cols[m][j] for m in names[:l + 1]) for j in range(n)]
+        for i in range(n):
+            for j in range(i + 2, n):
+                if keys[j] == keys[i] and any(keys[t] != keys[i] for t in range(i + 1, j)):
+                    bad = True
+    return got == ("ValueError" if bad else "ok")
+""" % (acols_src(n, levels, size), names, n),
+            funcs=["rtflite.services.grouping_service:GroupingService.enhance_group_by", "rtflite.services.grouping_service:GroupingService.validate_data_sorting"],
+            stubs=["polars -> vf.minipl model"],
+            bounds="%d level(s), %d rows over %d letters or null: first the rows in sorted (contiguous) order, then the SAME rows in the "
+                   "symbolic order, on one service object (the encoder's singleton or a private one)" % (levels, n, size),
+            what="a frame is validated on every call: having accepted the same rows in another order earlier changes nothing"))
     meta = {
         "explanation": "The polars expression kernels of group_by run on a pure-Python polars model (engine C) whose cells are symbolic "
                        "one-character strings or null, so CrossHair/z3 decides the suppression rule, the page-start restoration and the "
